@@ -27,7 +27,7 @@ def main(argv):
     ctx = Ctx(pid, tier, seed)
     mod = importlib.import_module(f"harness.corr.{pid.lower()}")
     try:
-        aud = audit_mod.audit(pid)
+        aud = audit_mod.audit(pid, tier=tier)
     except Exception as e:  # infrastructure
         print(f"audit crashed: {e}")
         traceback.print_exc()
